@@ -15,7 +15,7 @@ from fractions import Fraction
 import common as C
 
 ID = "C16"
-COQ_TARGETS = ["Properties/C16.vo", "Proofs/ElemOracle.vo"]
+COQ_TARGETS = ["Properties/C16.vo", "Proofs/ElemOracle.vo", "GenFacts/NumSrcElemFacts.vo"]
 MODEL_TARGETS = ["Model/Elem.vo"]
 IMPORTS = "From Ka Require Import Model.Elem.\nOpen Scope string_scope.\n"
 TRUSTED_EXTRA = [
